@@ -288,5 +288,5 @@ META = {
                    ("operon_ai/state/metabolism.py", "other.regenerate(amount, energy_type)")],
     "budget_s": {"quick": 600, "thorough": 3000},
     # independent second opinion: CrossHair confirms the float-free consume/regenerate step contracts over all paths
-    "crosscheck": {"file": "crosscheck/c04_crosshair.py", "conditions": 2, "timeout": 60},
+    "crosscheck": {"file": "crosscheck/c04_crosshair.py", "conditions": 4, "timeout": 60},
 }
